@@ -735,17 +735,37 @@ def validate_unique_names(nodes):
     visit(nodes, True)
 
 
-UNWRITABLE_TEXT = r"[\x00-\x08\x0a-\x1f]|--|\+\+|0[xX][0-9a-fA-F]*[eE][-+]"
+UNWRITABLE_TEXT = r"[\x00-\x08\x0a-\x1f]|--|\+\+|(?<![A-Za-z0-9_])0[xX][0-9a-fA-F]*[eE][-+]"
 """ expression text that is pasted into the generated code: a line break ends a Python statement (a tab is a blank for
-    prophyc, Python and C++ alike), -- is a C++ operator, 0xE+1 is one (ill-formed) number for a C++ compiler """
+    prophyc, Python and C++ alike), -- is a C++ operator, 0xE+1 is one (ill-formed) number for a C++ compiler
+    (OFFSET_0xE+1 is a name, a sign and a number) """
+
+PASTED_TEXT_DEPTH = 64
+PASTED_TEXT_LENGTH = 1000
+""" what every target accepts: Python refuses 200 nested parentheses and recurses over a sum of thousands of terms,
+    clang 256 nested brackets """
+
+
+def unwritable(text):
+    """ Why an expression text cannot be pasted into the generated code (None: it can). """
+    if re.search(UNWRITABLE_TEXT, text):
+        return "cannot be written in the generated code"
+    if len(text) > PASTED_TEXT_LENGTH:
+        return "is longer than %d characters" % PASTED_TEXT_LENGTH
+    depth = deepest = 0
+    for character in text:
+        depth += (character == "(") - (character == ")")
+        deepest = max(deepest, depth)
+    if deepest > PASTED_TEXT_DEPTH:
+        return "nests more than %d parentheses" % PASTED_TEXT_DEPTH
+    return None
 
 
 def validate_values(nodes, constants, strict=False):
     """ Enumerators and union discriminators are encoded as 32-bit unsigned integers. Requires cross referenced nodes. """
     def check(what, owner, value, low=0, high=0xFFFFFFFF, range_name="32-bit unsigned range"):
-        if strict and isinstance(value, six.string_types) and re.search(UNWRITABLE_TEXT, value):
-            """ the text is pasted into the generated code: a line break ends a Python statement, -- is a C++ operator """
-            raise ModelError("%s %r of %s cannot be written in the generated code" % (what, value, owner))
+        if strict and isinstance(value, six.string_types) and unwritable(value):
+            raise ModelError("%s %r of %s %s" % (what, value[:80], owner, unwritable(value)))
         try:
             number = to_int(value, constants)
         except (calc.ParseError, TypeError, ZeroDivisionError, ValueError, OverflowError) as e:
@@ -793,8 +813,8 @@ def validate_values(nodes, constants, strict=False):
                 check("enumerator value", node.name, member.value)
         elif isinstance(node, Struct) and strict:
             for member in node.members:
-                if isinstance(member.size, six.string_types) and re.search(UNWRITABLE_TEXT, member.size):
-                    raise ModelError("size %r of array '%s' of %s cannot be written in the generated code" % (member.size, member.name, node.name))
+                if isinstance(member.size, six.string_types) and unwritable(member.size):
+                    raise ModelError("size %r of array '%s' of %s %s" % (member.size[:80], member.name, node.name, unwritable(member.size)))
                 if isinstance(member.size, six.string_types):
                     check_size_text(member.size, "array '%s' of %s" % (member.name, node.name))
         elif isinstance(node, Union):
